@@ -44,6 +44,9 @@ pub enum Cond {
     Lib { arr: usize, val: String },
     /// a condition command that reports an error (`greater_than abc 5`: "Non numeric value"), plain or negated
     Errs { negate: bool },
+    /// three to five literal operands joined by `and` and `or` in any mix (`ors[i]` = the connective after operand i is
+    /// `or`): the and-of-ors rule - `a or b and c` is `(a or b) and c`
+    Mixed { vals: Vec<String>, ors: Vec<bool> },
 }
 
 #[derive(Serialize, Deserialize, Clone, Debug, PartialEq)]
@@ -122,6 +125,14 @@ pub fn render_cond(c: &Cond) -> String {
         Cond::NotVal(v) => format!("not {}", rarg(v)),
         Cond::And(vs) => vs.iter().map(|v| rarg(v)).collect::<Vec<_>>().join(" and "),
         Cond::Or(vs) => vs.iter().map(|v| rarg(v)).collect::<Vec<_>>().join(" or "),
+        Cond::Mixed { vals, ors } => {
+            let mut s = rarg(&vals[0]);
+            for (i, v) in vals.iter().enumerate().skip(1) {
+                s.push_str(if ors[i - 1] { " or " } else { " and " });
+                s.push_str(&rarg(v));
+            }
+            s
+        }
         Cond::Cnd { site, negate } => format!("{}cnd {} {}", if *negate { "not " } else { "" }, site, negate),
         Cond::Equals { a, b, negate } => format!("{}equals {} {}", if *negate { "not " } else { "" }, rarg(a), rarg(b)),
         Cond::Call { f, args } => {
@@ -398,6 +409,20 @@ impl<'a> Interp<'a> {
                     return Err(Stop::Inconclusive("condition reads an unconstrained value".to_string()));
                 }
                 Ok(!truthy(&s))
+            }
+            Cond::Mixed { vals, ors } => {
+                // groups of operands joined by `or`, the groups joined by `and`
+                let mut total = true;
+                let mut group = truthy(&vals[0]);
+                for (i, v) in vals.iter().enumerate().skip(1) {
+                    if ors[i - 1] {
+                        group = group || truthy(v);
+                    } else {
+                        total = total && group;
+                        group = truthy(v);
+                    }
+                }
+                Ok(total && group)
             }
             Cond::And(vs) => {
                 let mut r = true;
@@ -1251,6 +1276,12 @@ impl<'r> G<'r> {
                     _ => (true, true),
                 };
                 Cond::Group2 { a: lit(self.rng), b: lit(self.rng), or: self.rng.chance(1, 2), pa, pb }
+            }
+            3 | 4 if self.rng.chance(1, 4) => {
+                let n = 3 + self.rng.usize(3);
+                let vals: Vec<String> = (0..n).map(|_| self.rng.pick(&["true", "false", "0", "yes", "no", "hello", "1", "false"]).to_string()).collect();
+                let ors: Vec<bool> = (0..n - 1).map(|_| self.rng.chance(1, 2)).collect();
+                Cond::Mixed { vals, ors }
             }
             3 => {
                 let n = 2 + self.rng.usize(2);
